@@ -12,7 +12,7 @@
    semantics answers SigNormal (behind the statement), SigBreak (at that END_LOOP) or SigReturn (behind the call). *)
 From Coq Require Import ZArith String List Bool Lia.
 From Bardolph Require Import Gen.Codes Lang.Value Lang.Instr Lang.Loader Lang.World Lang.Units0 Lang.Regs Lang.Devices Lang.Builtins
-  Lang.Machine Lang.Syntax Lang.Sem Lang.CodeGen Lang.Scope Lang.ExprCompile Lang.Simulation Lang.Simulation2 Lang.CallFrames Lang.LoopVars Lang.RangeLoop.
+  Lang.Machine Lang.Syntax Lang.Sem Lang.CodeGen Lang.Scope Lang.ExprCompile Lang.Simulation Lang.Simulation2 Lang.CallFrames Lang.LoopVars Lang.RangeLoop Lang.CountWith.
 Open Scope string_scope.
 Open Scope list_scope.
 Import ListNotations.
@@ -46,8 +46,7 @@ Inductive SimpleB : bool -> bool -> stmt -> Prop :=
 | B_while inl inr c a : plain_rval mt c = true -> SimpleB true inr a -> SimpleB inl inr (SRepeat (LWhile c) a)
 | B_count inl inr n a : plain_rval mt n = true -> SimpleB true inr a -> SimpleB inl inr (SRepeat (LCount n) a)
 | B_infinite inl inr a : SimpleB true inr a -> SimpleB inl inr (SRepeat LInfinite a)
-| B_range inl inr v a b body : plain_rval mt a = true -> plain_rval mt b = true -> SimpleB true inr body ->
-    SimpleB inl inr (SRepeat (LRange v a b) body)
+| B_idx inl inr l v pre body : idx_form rt mt l v pre -> SimpleB true inr body -> SimpleB inl inr (SRepeat l body)
 with SimpleBL : bool -> bool -> list stmt -> Prop :=
 | BL_nil inl inr : SimpleBL inl inr []
 | BL_cons inl inr st r : SimpleB inl inr st -> SimpleBL inl inr r -> SimpleBL inl inr (st :: r).
@@ -70,20 +69,6 @@ Proof. reflexivity. Qed.
 Lemma c_infinite a : c_stmt rt mt false None (SRepeat LInfinite a) =
   [I0 OC_LOOP] ++ [I2 OC_MOVEQ (PBool true) (PReg R_RESULT)] ++ [jump JC_IF_FALSE (len (c_stmt rt mt false (Some 1) a ++ []) + 2)] ++ (c_stmt rt mt false (Some 1) a ++ []) ++
   [jump JC_ALWAYS (- (1 + 1 + len (c_stmt rt mt false (Some 1) a ++ [])))] ++ [I0 OC_END_LOOP].
-Proof. reflexivity. Qed.
-Lemma c_range v a b body : c_stmt rt mt false None (SRepeat (LRange v a b) body) =
-  [I0 OC_LOOP] ++ range_pre rt mt v a b ++ counter_test ++
-  [jump JC_IF_FALSE (len (c_stmt rt mt false (Some (len (counter_post (Some v)) + 1)) body ++ counter_post (Some v)) + 2)] ++
-  (c_stmt rt mt false (Some (len (counter_post (Some v)) + 1)) body ++ counter_post (Some v)) ++
-  [jump JC_ALWAYS (- (len counter_test + 1 + len (c_stmt rt mt false (Some (len (counter_post (Some v)) + 1)) body ++ counter_post (Some v))))] ++ [I0 OC_END_LOOP].
-Proof. reflexivity. Qed.
-Lemma exec_range f ss v a b body : Sem.exec rt mt (S (S f)) false ss (SRepeat (LRange v a b) body) =
-  (let* (x, s1) := eval_rval rt mt f false ss a in
-   let* (y, s2) := eval_rval rt mt f false s1 b in
-   match range_calc x y with
-   | Ok (cnt, incr) => iterate rt mt f false (assign s2 v x) None (Some cnt) (Some (v, incr)) None body
-   | Err e => RErr e s2
-   end).
 Proof. reflexivity. Qed.
 Lemma iterate_idx f ss cnt v incr body : iterate rt mt (S f) false ss None (Some cnt) (Some (v, incr)) None body =
   (let* (go, s1) := lift_res (positive cnt) ss in
@@ -161,7 +146,7 @@ Proof.
       (c_rval_no_routine rt mt c (DReg R_RESULT) Hc (plain_ok_result mt c Hc)). reflexivity.
   - intros inl inr n a Hn _ IHa after. rewrite c_loop_after, c_count, !forallb_app, (IHa _), (c_rval_counter_no_routine rt mt n Hn). reflexivity.
   - intros inl inr a _ IHa after. rewrite c_loop_after, c_infinite, app_nil_r, !forallb_app, (IHa (Some 1)). reflexivity.
-  - intros inl inr v a b body Ha Hb _ IHa after. rewrite c_loop_after, c_range, !forallb_app, (IHa _), (range_pre_no_routine rt mt v a b Ha Hb). reflexivity.
+  - intros inl inr l v pre body Hform _ IHa after. destruct Hform as (Hcode & Hnr & _). rewrite c_loop_after, Hcode, !forallb_app, (IHa _), Hnr. reflexivity.
   - intros inl inr after. reflexivity.
   - intros inl inr st r _ IHst _ IHr after. rewrite c_block_cons_after, forallb_app, (IHst _), (IHr after). reflexivity.
 Qed.
@@ -862,15 +847,16 @@ Proof.
       split; [exact Hsty|exact Hty].
     + right. right. exists v. split; [exact Hsig|].
       exact (returned_rebase im ss s ss s1 1%nat [] ss' E1 eq_refl eq_refl (eq_sym (app_nil_r _)) Hret).
-  - (* loop with an index variable: repeat with v from a to b *)
-    intros inl inr v ra rb a Hra Hrb Ha IHa after im ss s sig ss' fuel Hload _ Hir Hd Hsim Hcode He.
-    destruct fuel as [|[|fuel]]; try discriminate. rewrite exec_range in He.
-    rewrite c_loop_after, c_range in *.
+  - (* loops with an index variable: repeat with v from a to b, repeat n with v from a to b, repeat n with v cycle *)
+    intros inl inr l v N a Hform Ha IHa after im ss s sig ss' fuel Hload _ Hir Hd Hsim Hcode He.
+    destruct Hform as (Hccode & HnrN & Hprep).
+    destruct fuel as [|[|fuel]]; try discriminate.
+    rewrite c_loop_after, Hccode in *.
     change (len (counter_post (Some v))) with 8 in *.
     pose proof (proj1 simpleB_no_routine true inr a Ha (Some (8 + 1))) as Hnrb.
     assert (Hnri : forallb not_routine (c_stmt rt mt false (Some (8 + 1)) a ++ counter_post (Some v)) = true) by (rewrite forallb_app, Hnrb; reflexivity).
     rewrite (len_no_routine _ Hnri) in *. change (len counter_test) with 4 in *.
-    set (N := range_pre rt mt v ra rb) in *. set (B := c_stmt rt mt false (Some (8 + 1)) a) in *.
+    set (B := c_stmt rt mt false (Some (8 + 1)) a) in *.
     set (kN := zlength N) in *.
     assert (HkI : zlength (B ++ counter_post (Some v)) = zlength B + 8) by (unfold zlength; rewrite app_length, Nat2Z.inj_add; reflexivity).
     rewrite HkI in *. set (kB := zlength B) in *.
@@ -882,23 +868,18 @@ Proof.
     apply code_at_app in Hcode. destruct Hcode as [Hjb Hend]. cbn [code_at] in Hjb, Hend. destruct Hjb as [Hfjb _]. destruct Hend as [Hfe _].
     rewrite !zlength1 in *. fold kN in HcT, Hfj, HcB, HcP, Hfjb, Hfe. change (zlength counter_test) with 4 in *. rewrite HkI in *. fold kB in HcP, Hfjb, Hfe.
     set (P0 := m_pc s) in *.
-    destruct (eval_rval rt mt fuel false ss ra) as [x sa|e sa|sa] eqn:Ev1; cbn [sbind] in He; try discriminate.
-    destruct (eval_rval rt mt fuel false sa rb) as [y sb0|e sb0|sb0] eqn:Ev2; cbn [sbind] in He; try discriminate.
-    destruct (range_calc x y) as [[cnt incr]|e] eqn:Ecalc; [|discriminate].
     set (d := zlength (m_stack s)).
     set (s1 := advance (with_frames s (FLoop [] d :: m_frames s))).
     assert (E1 : esteps 1 im s = Some (s1, [])) by (apply (estep1 im s _ _ _ Hfl); reflexivity).
     assert (Hs1 : sim ss s1) by (destruct Hsim; constructor; cbn; assumption).
     assert (HcN1 : code_at im (m_pc s1) N) by exact HcN.
-    assert (Hsa : sa = ss) by (destruct (lv_init rt mt LV_FIRST ra Hra im ss s1 x sa fuel [] d (m_frames s) Hs1 eq_refl) as [H _]; [unfold N, range_pre in HcN1; apply code_at_app in HcN1; exact (proj1 HcN1)|exact Ev1|exact H]).
-    subst sa.
-    destruct (range_prep rt mt v ra rb Hra Hrb im ss s1 x y ss sb0 cnt incr fuel [] d (m_frames s) Hs1 eq_refl HcN1 Ev1 Ev2 Ecalc)
-      as (_ & Hsb0 & nN & s2 & lv2 & r2 & HnN & Hs2 & Hpc2 & Hfk2 & Her2 & Hsk2 & HlC2 & HlI2). subst sb0.
-    fold N in Hpc2. fold kN in Hpc2.
+    destruct (Hprep fuel ss a sig ss' im s1 d (m_frames s) He Hs1 eq_refl HcN1)
+      as (cnt & incr & ssp & nN & s2 & lv2 & r2 & He' & Htr0 & HnN & Hs2 & Hpc2 & Hfk2 & Her2 & Hsk2 & HlC2 & HlI2).
+    clear He. rename He' into He. fold kN in Hpc2.
     assert (Hin1 : in_loop_ok true (Some (8 + 1))) by (intros _; exists (8 + 1); reflexivity).
     assert (Hiter : forall f ss1 sx sg ssx lv c0 r,
               sim ss1 sx -> m_pc sx = P0 + 1 + kN -> m_frames sx = FLoop lv d :: r -> erase r = erase (m_frames s) ->
-              lv_get lv LV_COUNTER = Some c0 -> lv_get lv LV_INCR = Some incr -> m_stack sx = m_stack s ->
+              lv_get lv LV_COUNTER = Some c0 -> lv_val lv LV_INCR = incr -> m_stack sx = m_stack s ->
               iterate rt mt f false ss1 None (Some c0) (Some (v, incr)) None a = ROk sg ssx ->
               (sg = SigNormal /\ exists n sy evs, esteps n im sx = Some (sy, evs) /\ sim ssx sy /\ m_pc sy = P0 + (kN + kB + 16) /\
                                            (m_stack sy, fr sy) = (m_stack s, fr s) /\ rev (s_trace ssx) = rev (s_trace ss1) ++ evs) \/
@@ -933,7 +914,8 @@ Proof.
           destruct (loop_frame_kept s5 s4 s lv d r Hst5 Hsk4 Hfk4 Herx) as [Hsk5 (r5 & Hfk5 & Her5)].
           assert (Hpc5' : m_pc s5 = P0 + 1 + kN + 4 + 1 + kB) by (rewrite Hpc5; unfold s4; cbn [with_pc m_pc]; rewrite Hpc3; fold B; fold kB; reflexivity).
           assert (HcP5 : code_at im (m_pc s5) (counter_post (Some v))) by (rewrite Hpc5'; exact HcP).
-          destruct (range_post_steps im sb s5 v lv d r5 c0 c1 incr nv Hs5 Hfk5 Hlvx HlvI Esub Eidx HcP5)
+          assert (HlvI' : lv_get lv LV_INCR = Some incr) by (apply (lv_val_some lv LV_INCR incr HlvI); exact (idx_next_incr sb v incr nv Eidx)).
+          destruct (range_post_steps im sb s5 v lv d r5 c0 c1 incr nv Hs5 Hfk5 Hlvx HlvI' Esub Eidx HcP5)
             as (s6 & lv6 & r6 & E6 & Hs6 & Hpc6 & Hfk6 & Her6 & Hsk6 & HlC6 & HlI6).
           assert (Hfjb6 : fetch im (m_pc s6) = Some (jump JC_ALWAYS (- (4 + 1 + (kB + 8))))).
           { rewrite Hpc6, Hpc5'. replace (P0 + 1 + kN + 4 + 1 + kB + 8) with (P0 + 1 + kN + 4 + 1 + (kB + 8)) by lia. exact Hfjb. }
@@ -946,7 +928,7 @@ Proof.
           { exact Hfk6. }
           { rewrite Her6. exact Her5. }
           { exact HlC6. }
-          { exact HlI6. }
+          { unfold lv_val. rewrite HlI6. reflexivity. }
           { unfold s7. cbn [with_pc m_stack]. rewrite Hsk6. exact Hsk5. }
           { exact Hit. }
           * left. split; [exact Hsg|]. exists ((4 + (1 + (n5 + (8 + 1)))) + n8)%nat, s8, (([] ++ ([] ++ (e5 ++ ([] ++ [])))) ++ e8).
@@ -979,8 +961,7 @@ Proof.
         split; [eapply esteps_app; [exact Et|eapply esteps_app; [exact Ej|exact E5]]|].
         split; [exact Hs5|]. split; [rewrite Hpc5; unfold s4; cbn [with_pc m_pc]; rewrite Hpc3; lia|].
         split; [exact Hst5|]. rewrite app_nil_r. reflexivity. }
-    destruct (assign_other_fields ss v x) as (_ & _ & Htr0).
-    destruct (Hiter fuel (assign ss v x) s2 sig ss' lv2 cnt r2 Hs2) as [[Hsig (n & sy & evs & En & Hsy & Hpcy & Hsty & Hty)]|[w [Hsig Hret]]].
+    destruct (Hiter fuel ssp s2 sig ss' lv2 cnt r2 Hs2) as [[Hsig (n & sy & evs & En & Hsy & Hpcy & Hsty & Hty)]|[w [Hsig Hret]]].
     { rewrite Hpc2. unfold s1. cbn [advance with_pc with_frames with_vars m_pc]. fold P0. lia. }
     { exact Hfk2. }
     { exact Her2. }
@@ -994,7 +975,7 @@ Proof.
       split; [exact Hsty|]. rewrite Hty, Htr0. reflexivity.
     + right. right. exists w. split; [exact Hsig|].
       assert (E12 : esteps (1 + nN) im s = Some (s2, [] ++ [])) by (eapply esteps_app; [exact E1|exact HnN]).
-      apply (returned_rebase im ss s (assign ss v x) s2 (1 + nN)%nat ([] ++ []) ss' E12); [|exact Hsk2|rewrite Htr0; symmetry; apply app_nil_r|exact Hret].
+      apply (returned_rebase im ss s ssp s2 (1 + nN)%nat ([] ++ []) ss' E12); [|exact Hsk2|rewrite Htr0; symmetry; apply app_nil_r|exact Hret].
       rewrite Hfk2. cbn [call_tail]. apply call_tail_fr_eq. exact Her2.
   - (* empty sequence *)
     intros inl inr after im ss s sig ss' fuel _ _ _ _ Hsim Hc He. destruct fuel as [|fuel]; [discriminate|]. rewrite exec_seq_nil in He.
@@ -1052,9 +1033,23 @@ Proof.
   - right. right. exists v. split; [exact Hsig|]. exists ret, F, n, s', evs. repeat split; assumption.
 Qed.
 
-(* a loop with an index variable (C04): first and last are evaluated once, the count is |last - first| + 1 and the step +1 or -1,
-   the variable is assigned like any other variable (in the routine's own dictionary inside a routine), the compiled code leads where
-   the source says *)
+(* loops with an index variable (C04): the preparation code leaves the count and the increment the reference semantics computes and
+   the first value in the variable; the variable is assigned like any other variable (in the routine's own dictionary inside a
+   routine); the compiled code leads where the source says *)
+Theorem indexed_loop_simulation :
+  forall rt mt (inr : bool) l v pre body, idx_form rt mt l v pre -> SimpleB rt mt true inr body ->
+  forall after im ss s sig ss' fuel, routines_loaded rt mt im -> in_ret_ok inr (m_frames s) ->
+  depth_ok (m_frames s) (zlength (m_stack s)) -> sim ss s ->
+  code_at im (m_pc s) (c_stmt rt mt false after (SRepeat l body)) ->
+  Sem.exec rt mt fuel false ss (SRepeat l body) = ROk sig ss' ->
+  outcome after im ss s sig ss' (c_stmt rt mt false after (SRepeat l body)).
+Proof.
+  intros rt mt inr l v pre body Hform Hbody after im ss s sig ss' fuel Hload Hir Hd Hsim Hc He.
+  assert (Hil : in_loop_ok false after) by (intros H; discriminate).
+  exact (proj1 (simpleB_simulation rt mt) false inr _ (B_idx rt mt false inr l v pre body Hform Hbody) after im ss s sig ss' fuel Hload Hil Hir Hd Hsim Hc He).
+Qed.
+
+(* repeat with v from a to b: the count is |b - a| + 1, the step +1 or -1 *)
 Theorem range_loop_simulation :
   forall rt mt (inr : bool) v a b body, plain_rval mt a = true -> plain_rval mt b = true -> SimpleB rt mt true inr body ->
   forall after im ss s sig ss' fuel, routines_loaded rt mt im -> in_ret_ok inr (m_frames s) ->
@@ -1062,11 +1057,27 @@ Theorem range_loop_simulation :
   code_at im (m_pc s) (c_stmt rt mt false after (SRepeat (LRange v a b) body)) ->
   Sem.exec rt mt fuel false ss (SRepeat (LRange v a b) body) = ROk sig ss' ->
   outcome after im ss s sig ss' (c_stmt rt mt false after (SRepeat (LRange v a b) body)).
-Proof.
-  intros rt mt inr v a b body Ha Hb Hbody after im ss s sig ss' fuel Hload Hir Hd Hsim Hc He.
-  assert (Hil : in_loop_ok false after) by (intros H; discriminate).
-  exact (proj1 (simpleB_simulation rt mt) false inr _ (B_range rt mt false inr v a b body Ha Hb Hbody) after im ss s sig ss' fuel Hload Hil Hir Hd Hsim Hc He).
-Qed.
+Proof. intros rt mt inr v a b body Ha Hb. exact (indexed_loop_simulation rt mt inr _ _ _ body (range_idx_form rt mt v a b Ha Hb)). Qed.
+
+(* repeat n with v from a to b: n values, the step (b - a) / (n - 1), or 0 when n is 1 *)
+Theorem interpolating_loop_simulation :
+  forall rt mt (inr : bool) n v a b body, plain_rval mt n = true -> plain_rval mt a = true -> plain_rval mt b = true -> SimpleB rt mt true inr body ->
+  forall after im ss s sig ss' fuel, routines_loaded rt mt im -> in_ret_ok inr (m_frames s) ->
+  depth_ok (m_frames s) (zlength (m_stack s)) -> sim ss s ->
+  code_at im (m_pc s) (c_stmt rt mt false after (SRepeat (LCountWith n (WRange v a b)) body)) ->
+  Sem.exec rt mt fuel false ss (SRepeat (LCountWith n (WRange v a b)) body) = ROk sig ss' ->
+  outcome after im ss s sig ss' (c_stmt rt mt false after (SRepeat (LCountWith n (WRange v a b)) body)).
+Proof. intros rt mt inr n v a b body Hn Ha Hb. exact (indexed_loop_simulation rt mt inr _ _ _ body (cw_range_idx_form rt mt n v a b Hn Ha Hb)). Qed.
+
+(* repeat n with v cycle [start]: n values, the step a full turn (360, or 65536 in raw units) / n, from start or 0 *)
+Theorem cycle_loop_simulation :
+  forall rt mt (inr : bool) n v start body, plain_rval mt n = true -> plain_opt mt start = true -> SimpleB rt mt true inr body ->
+  forall after im ss s sig ss' fuel, routines_loaded rt mt im -> in_ret_ok inr (m_frames s) ->
+  depth_ok (m_frames s) (zlength (m_stack s)) -> sim ss s ->
+  code_at im (m_pc s) (c_stmt rt mt false after (SRepeat (LCountWith n (WCycle v start)) body)) ->
+  Sem.exec rt mt fuel false ss (SRepeat (LCountWith n (WCycle v start)) body) = ROk sig ss' ->
+  outcome after im ss s sig ss' (c_stmt rt mt false after (SRepeat (LCountWith n (WCycle v start)) body)).
+Proof. intros rt mt inr n v start body Hn Ha. exact (indexed_loop_simulation rt mt inr _ _ _ body (cw_cycle_idx_form rt mt n v start Hn Ha)). Qed.
 
 (* a call: the arguments are evaluated in the caller's scope, the body runs with the parameters as its own variables (by
    value: assigning to one changes the routine's dictionary only), and afterwards the machine is behind the call with the
@@ -1118,6 +1129,8 @@ Fixpoint simpleB_b (fuel : nat) (inl inr : bool) (st : stmt) : bool :=
       | SRepeat (LCount n) a => plain_rval mt n && simpleB_b f true inr a
       | SRepeat LInfinite a => simpleB_b f true inr a
       | SRepeat (LRange v x y) a => plain_rval mt x && plain_rval mt y && simpleB_b f true inr a
+      | SRepeat (LCountWith n (WRange v x y)) a => plain_rval mt n && plain_rval mt x && plain_rval mt y && simpleB_b f true inr a
+      | SRepeat (LCountWith n (WCycle v start)) a => plain_rval mt n && plain_opt mt start && simpleB_b f true inr a
       | _ => false
       end
   end.
@@ -1142,7 +1155,13 @@ Proof.
     + apply B_infinite. apply IH. exact H.
     + apply andb_true_iff in H. destruct H as [Hc Ha]. apply B_while; [exact Hc|apply IH; exact Ha].
     + apply andb_true_iff in H. destruct H as [Hc Ha]. apply B_count; [exact Hc|apply IH; exact Ha].
-    + apply andb_true_iff in H. destruct H as [H Ha]. apply andb_true_iff in H. destruct H as [Hx Hy]. apply B_range; [exact Hx|exact Hy|apply IH; exact Ha].
+    + apply andb_true_iff in H. destruct H as [H Ha]. apply andb_true_iff in H. destruct H as [Hx Hy].
+      apply (B_idx rt mt inl inr _ _ _ _ (range_idx_form rt mt _ _ _ Hx Hy)). apply IH. exact Ha.
+    + match goal with w : loop_with |- _ => destruct w end.
+      * apply andb_true_iff in H. destruct H as [H Ha]. apply andb_true_iff in H. destruct H as [H Hy]. apply andb_true_iff in H. destruct H as [Hn Hx].
+        apply (B_idx rt mt inl inr _ _ _ _ (cw_range_idx_form rt mt _ _ _ _ Hn Hx Hy)). apply IH. exact Ha.
+      * apply andb_true_iff in H. destruct H as [H Ha]. apply andb_true_iff in H. destruct H as [Hn Hx].
+        apply (B_idx rt mt inl inr _ _ _ _ (cw_cycle_idx_form rt mt _ _ _ Hn Hx)). apply IH. exact Ha.
   - subst inl. apply B_break.
   - apply B_block. clear Ea. induction ss as [|x r IHr]; [constructor|]. cbn [forallb] in H. apply andb_true_iff in H. destruct H as [Hx Hr].
     constructor; [apply IH; exact Hx|apply IHr; exact Hr].
